@@ -191,7 +191,7 @@ def make_serde(spec):
         return _serde_mod.CompressedSerde(compress=c, decompress=d, serde=inner,
                                           min_compress_len=spec.get("min", 400))
     if kind == "json":
-        return JSONSerde()
+        return JSONSerde(spec.get("f_str", 1), spec.get("f_json", 2))
     if kind == "faildeser":
         return FailingSerde(make_serde(spec.get("inner")) or _Plain())
     raise ValueError("unknown serde %r" % (spec,))
